@@ -621,4 +621,72 @@ theorem fileV_missing_required (ext : Ext) (c fp want text lines : Val) (S : Lis
 /-- non-vacuity: sections `Song` and `Events` only -/
 example : ([SONG, SYNC, EVENTS].all fun t => [(SONG, Val.list .nil), (EVENTS, Val.list .nil)].any (·.1 == t)) = false := by decide
 
+/-! ## the empty selection -/
+
+theorem req_not_dict : ∀ sp, REQ ≠ .dict sp := by
+  intro sp h
+  unfold REQ Gen.Imp.fromFileK_required_header_tags at h
+  cases h
+
+theorem containsV_req (tag : Val) : ∃ b, containsV tag REQ = .ok (.bool b) := by
+  have h := req_tags
+  unfold containsV
+  cases hr : REQ with
+  | dict sp => exact absurd hr (req_not_dict sp)
+  | _ => simp_all
+
+/-- **an empty selection parses nothing and cannot fail**: whatever the sections hold and whatever the track parser would do, the
+    routing fold with `want_tracks = []` leaves the map as it was (no call of `InstrumentTrack.from_chart_lines` occurs in the result) -/
+theorem routeFold_empty (ext : Ext) (Tl : List (Val × Val)) (sync : Val) :
+    ∀ (S : List (Val × Val)) (acc : Val), routeFold ext (.dict (encEntries Tl)) (.list .nil) sync acc S = .ok acc := by
+  intro S
+  induction S with
+  | nil => intro acc; rfl
+  | cons kv rest ih =>
+    intro acc
+    obtain ⟨tag, lines⟩ := kv
+    have hstep : routeStep ext (.dict (encEntries Tl)) (.list .nil) sync acc tag lines = .ok acc := by
+      unfold routeStep
+      have hc : containsV tag (.dict (encEntries Tl)) = .ok (.bool (Tl.any (·.1 == tag))) := by
+        simp [containsV, dictEntries_enc]
+      rw [hc]
+      simp only [ok_bind, truth_bool]
+      by_cases hb : Tl.any (·.1 == tag) = true
+      · simp only [hb, if_true]
+        have hi : ∃ pair, indexVal (.dict (encEntries Tl)) tag = .ok pair := by
+          have : ∃ kv, Tl.find? (·.1 == tag) = some kv := by
+            cases hf : Tl.find? (·.1 == tag) with
+            | some kv => exact ⟨kv, rfl⟩
+            | none =>
+              rw [List.find?_eq_none] at hf
+              rw [List.any_eq_true] at hb
+              obtain ⟨x, hx, hx2⟩ := hb
+              exact absurd hx2 (hf x hx)
+          obtain ⟨kv, hkv⟩ := this
+          exact ⟨kv.2, by simp [indexVal, dictEntries_enc, hkv]⟩
+        obtain ⟨pair, hi⟩ := hi
+        have hs : skipV (.list .nil) pair = .ok true := by
+          simp [skipV, containsV, seqOf, Val.toList?, bind, Except.bind]
+        rw [hi, ok_bind, hs]
+        rfl
+      · have hb' : Tl.any (·.1 == tag) = false := by
+          cases h : Tl.any (·.1 == tag) with
+          | true => exact absurd h hb
+          | false => rfl
+        simp only [hb', Bool.false_eq_true, if_false]
+        obtain ⟨b, hr⟩ := containsV_req tag
+        rw [hr]
+        rfl
+    simp only [routeFold, hstep, ok_bind]
+    exact ih acc
+
+/-- obligation on the regenerated constant: the title table is a dict, given by its entries -/
+theorem table_entries : TABLE = .dict (encEntries Gen.Imp.fromFileK_table_entries) := rfl
+
+/-- the empty selection on the table of /repo's working tree -/
+theorem routeFold_empty_table (ext : Ext) (sync : Val) (S : List (Val × Val)) (acc : Val) :
+    routeFold ext TABLE (.list .nil) sync acc S = .ok acc := by
+  rw [table_entries]
+  exact routeFold_empty ext _ sync S acc
+
 end Chartparse.Tie
